@@ -111,8 +111,60 @@ def fold_local(project: Project, func: Func, expr):
     return UNKNOWN
 
 
+RET_NONE = 'None'
+
+
+def return_kinds(project: Project, func: Func, depth=0) -> Dict[str, List[ast.AST]]:
+    """What a classification helper can hand back: ``{kind: [return statements / the def node for the implicit one]}``
+    with kind == RET_NONE (``return None`` / bare ``return`` / falling off the end) or the qualified name of the
+    exception class of which an instance is returned (a parameter handed back counts as ``builtins.BaseException``:
+    whatever was caught).  Anything else is an unknown idiom."""
+    p = project
+    cfg = cfg_of(func, p)
+    out: Dict[str, List[ast.AST]] = {}
+    params = [a for a in func.params() if a not in ('self', 'cls')]
+
+    def kinds_of(e, where, seen=()):
+        if e is None or (isinstance(e, ast.Constant) and e.value is None):
+            return [RET_NONE]
+        if isinstance(e, ast.IfExp):
+            return kinds_of(e.body, where, seen) + kinds_of(e.orelse, where, seen)
+        if isinstance(e, ast.Call):
+            q = p.resolve_expr(func.module, e.func, func)
+            if q is not None and p.is_subclass(q, 'builtins.BaseException') is True:
+                return [q]
+            raise UnknownIdiom('%s: returns %s' % (func.qual, short(e)))
+        if isinstance(e, ast.Name):
+            if e.id in params:
+                return ['builtins.BaseException']
+            if e.id in seen:
+                raise UnknownIdiom('%s: returns %s' % (func.qual, short(e)))
+            ds = local_defs(func, e.id)
+            if not ds or any(d is None for d in ds):
+                raise UnknownIdiom('%s: returns the local %s whose values are not understood' % (func.qual, e.id))
+            ks = []
+            for d in ds:
+                ks += kinds_of(d, where, seen + (e.id,))
+            return ks
+        raise UnknownIdiom('%s: returns %s' % (func.qual, short(e)))
+
+    n_ret = 0
+    for n in cfg.live_nodes():
+        if n.kind == 'stmt' and isinstance(n.ast, ast.Return):
+            n_ret += 1
+            for k in kinds_of(n.ast.value, n.ast):
+                out.setdefault(k, []).append(n.ast)
+    for (i, _l) in cfg.pred[cfg.exit]:
+        n = cfg.node(i)
+        if i in cfg.reachable_ids and not (n.kind == 'stmt' and isinstance(n.ast, ast.Return)):
+            out.setdefault(RET_NONE, []).append(func.node)
+    if not out:
+        raise UnknownIdiom('%s never returns' % func.qual)
+    return out
+
+
 class Result:
-    __slots__ = ('exits', 'xexits', 'emits', 'recvs', 'raises', 'state_writes')
+    __slots__ =('exits', 'xexits', 'emits', 'recvs', 'raises', 'state_writes')
 
     def __init__(self):
         self.exits: Set[tuple] = set()
